@@ -97,3 +97,19 @@ claim("C06",
       "label getters are pure look-ups.",
       "Invariance of spglib's dataset under re-presentation is assumed (A-SPG); SHA-512 prefix injective (A-HASH); occupancy family bounded (single letters, pairs); last clause of the statement not covered.",
       "execution of the real selection code over all groups x normalizers + exhaustive table obligations", "DESIGN.md §3 C06")
+
+claim("C12",
+      "Centring matrices of _get_primitive_system (literal read from the AST): determinant 1/k and, for every one of the 230 groups, the lattice they span is exactly Z^3 plus that group's centring translations "
+      "(exhaustive); _get_primitive_system executed symbolically for every centring letter (symbolic conventional cell, positions, atom count): primitive cell = P^T . cell, one representative per primitive atom, "
+      "letters / orbits / species taken at the same representative, fractional coordinates = pos . inv(prim_cell), wrapped, pbc kept, P returns the conventional objects; volume ratio det(P^T C) = det P det C; "
+      "index maps: every conventional atom carries the letter / orbit of its class (np.unique first-occurrence contract, A-SPG homogeneity).",
+      "spglib mappings assumed (A-SPG: onto, k pre-images, homogeneous); 'primitive system is itself primitive / same space group' rests on spglib; ASE/numpy contracts.",
+      "symbolic execution per centring + exhaustive lattice obligations (exact rationals) + z3", "DESIGN.md §3 C12")
+
+claim("C07",
+      "MatID's own part: (a) the letters of the conventional atoms are the spglib letters relabelled by the permutation of the applied normalizer (real code executed for all 230 groups) and every tabulated "
+      "permutation maps Wyckoff positions onto Wyckoff positions while the normalizer maps the group onto itself (exhaustive table obligations, mixed real/integer z3 queries) - so sets stay orbits and letters are those of the "
+      "standard setting; (b) index maps: every conventional atom carries the letter/orbit id of its class (symbolic, all sizes); (c) set formation (partition, multiplicity = size, letter/element of the members, sorted output) "
+      "by exhaustive execution of the real _get_wyckoff_sets on every equivalence labeling of up to 5 atoms (bounded stand-in, labelled bounded).",
+      "spglib's orbits and letters are assumed (A-SPG). Part (c) is bounded (n <= 5) and not counted as proved.",
+      "exhaustive table obligations + symbolic index-map proof; bounded exhaustive execution for set formation", "DESIGN.md §3 C07")
